@@ -373,6 +373,15 @@ func (c *caseCtx) judge(label string, cc *certCase, prev, block *types.Header) v
 	default:
 		v.class = "c"
 	}
+	// Visible in the evidence, not judged (see check.json assumptions): with a
+	// required number <= 0 a certificate without a single genuine vote passes.
+	if v.accepted && v.ref.genuine == 0 {
+		if len(cc.entries) == 0 {
+			evid.Count("observation.accepted-with-no-signatures(required<=0)")
+		} else {
+			evid.Count("observation.accepted-with-only-junk-signatures(required<=0)")
+		}
+	}
 	return v
 }
 
